@@ -460,9 +460,29 @@ theorem Restricted.def_of_mem_defs {r : RMod} {bbs : List BBox} (h : Restricted 
     obtain ⟨t, ht⟩ := dty_of_defs (h.stmts s hs) hd
     exact ⟨t, Or.inr ⟨s, hs, ht⟩⟩
 
-theorem Restricted.uses_def {r : RMod} {bbs : List BBox} (h : Restricted r bbs) {s : RStmt} (hs : s ∈ r.stmts)
-    {n : Name} (hn : n ∈ s.uses bbs) : ∃ t, DefTy bbs r.inputs r.stmts n t :=
-  h.def_of_mem_defs (h.closed s hs n hn)
+/-- a floating net has a plain name: it is neither a constant node nor a pin -/
+theorem floating_plain {bbs : List BBox} {ins : List Name} {ss : List RStmt} (hok : ∀ s ∈ ss, s.OK bbs) {n : Name}
+    (hf : Floating bbs ins ss n) : Plain n := by
+  obtain ⟨⟨s, hs, b, hb⟩, hnd⟩ := hf
+  rcases edge_src (hok s hs) hb with e | e | ⟨m, e, _, hp⟩ | ⟨m, e, hd⟩
+  · cases e
+  · cases e
+  · injection e with e; subst e; exact hp
+  · injection e with e; subst e
+    exact absurd (Or.inr ⟨s, hs, hd⟩) (hnd _)
+
+/-- the source of an edge is a constant, a defined node or a floating net -/
+theorem edge_src_cases {bbs : List BBox} {ins : List Name} {ss : List RStmt} (hok : ∀ s ∈ ss, s.OK bbs) {s : RStmt}
+    (hs : s ∈ ss) {a : ROp} {b : Name} (h : s.edge bbs a b) :
+    a = .c0 ∨ a = .c1 ∨ ∃ n, a = .net n ∧ ((∃ t, DefTy bbs ins ss n t) ∨ (Floating bbs ins ss n ∧ Plain n)) := by
+  rcases edge_src (hok s hs) h with rfl | rfl | ⟨n, rfl, _, hp⟩ | ⟨n, rfl, hd⟩
+  · exact Or.inl rfl
+  · exact Or.inr (Or.inl rfl)
+  · refine Or.inr (Or.inr ⟨n, rfl, ?_⟩)
+    by_cases hd : ∃ t, DefTy bbs ins ss n t
+    · exact Or.inl hd
+    · exact Or.inr ⟨⟨⟨s, hs, b, h⟩, fun t ht => hd ⟨t, ht⟩⟩, hp⟩
+  · exact Or.inr (Or.inr ⟨n, rfl, Or.inl ⟨_, Or.inr ⟨s, hs, hd⟩⟩⟩)
 
 theorem Restricted.out_def {r : RMod} {bbs : List BBox} (h : Restricted r bbs) {o : Name} (ho : o ∈ r.outputs) :
     ∃ t, DefTy bbs r.inputs r.stmts o t :=
